@@ -6,8 +6,9 @@
 
    A directive is the record [directive]; strings are their UTF-8 bytes; the time is
    (whole seconds, nanoseconds).  [dir_ok] is the executable guard found by the proof:
-     - date_ok: offset in whole minutes, |offset| < 24 h, local time within 1970..9999, time <> 0,
-       and a NEGATIVE offset only in whole hours (parse_patch_date adds the minutes of "-0330");
+     - date_ok: offset in whole minutes, |offset| < 24 h, local time within 1970..9999, time <> 0
+       (the former exclusion of negative non-whole-hour offsets is gone: parse_patch_date was
+       repaired on 2026-09-22, finding C40-patch-date-negative-minutes);
      - d_nanos = 0 (the format keeps whole seconds);
      - a source branch or a bundle is present, testament_sha1 is present and ASCII;
      - no line of the patch starts with "# Begin bundle";
@@ -47,7 +48,6 @@ Theorem C40_directive_roundtrip_refuted :
   (exists d, serialises d = true /\ roundtrips d = false /\ d_message d = Some (asc "a" ++ [CR])) /\
   (exists d, serialises d = true /\ roundtrips d = false /\
              d_message d = Some (repeat 120%N 58 ++ [BSL] ++ asc "yyyy")) /\
-  (exists d, serialises d = true /\ roundtrips d = false /\ d_timezone d = (-12600)%Z) /\
   (exists d, serialises d = true /\ roundtrips d = false /\ d_nanos d = 750000000%Z) /\
   (exists d, serialises d = true /\ roundtrips d = false /\
              d_patch d = Some (asc "a" ++ [LF] ++ BEGIN_BUNDLE ++ [LF] ++ asc "b" ++ [LF])).
@@ -56,9 +56,6 @@ Proof.
           exact (conj (proj1 roundtrip_refuted_cr) (conj (proj2 roundtrip_refuted_cr) eq_refl))|].
   split; [exists (with_message (repeat 120%N 58 ++ [BSL] ++ asc "yyyy"));
           exact (conj (proj1 roundtrip_refuted_backslash) (conj (proj2 roundtrip_refuted_backslash) eq_refl))|].
-  split; [exists (with_zone 0 (-12600));
-          exact (conj (proj1 roundtrip_refuted_negative_minutes)
-                      (conj (proj2 roundtrip_refuted_negative_minutes) eq_refl))|].
   split; [exists (with_zone 750000000 3600);
           exact (conj (proj1 roundtrip_refuted_subsecond) (conj (proj2 roundtrip_refuted_subsecond) eq_refl))|].
   exists (with_payload (Some (asc "a" ++ [LF] ++ BEGIN_BUNDLE ++ [LF] ++ asc "b" ++ [LF])) (Some (asc "QUJD"))).
@@ -66,12 +63,12 @@ Proof.
 Qed.
 Print Assumptions C40_directive_roundtrip_refuted.
 
-Theorem C40_patch_date_refuted :
-  exists secs offset s,
-    Z.rem offset 60 = 0%Z /\ format_patch_date secs offset = Some s /\
-    parse_patch_date s = Some ((secs - 3600)%Z, (offset + 3600)%Z).
-Proof. exact date_negative_minutes_refuted. Qed.
-Print Assumptions C40_patch_date_refuted.
+(* regression for the repaired finding C40-patch-date-negative-minutes: "-0330" *)
+Example C40_patch_date_negative_minutes :
+  (format_patch_date 1000000 (-12600) = Some (asc "1970-01-12 10:16:40 -0330") /\
+   parse_patch_date (asc "1970-01-12 10:16:40 -0330") = Some (1000000, -12600)%Z) /\
+  dir_ok (with_zone 0 (-12600)) = true.
+Proof. exact (conj date_negative_minutes (proj1 roundtrip_negative_minutes)). Qed.
 
 (* read back from a file (the text split at LF): proved by correspondence only; the extra
    excluded class is a patch without final newline followed by a bundle *)
